@@ -112,6 +112,14 @@ func (g *G) genRandom(id string, opt randOpt) *History {
 	}
 	nres := 1 + g.r.Intn(opt.maxRes)
 	res := make([]int, nres)
+	resources := resources
+	if opt.nearMiss || opt.grammar {
+		// half of the resources come from the URL grammar (gen4.go)
+		resources = append([]resource{}, resources...)
+		for i := 0; i < 4; i++ {
+			resources = append(resources, g.genResource())
+		}
+	}
 	for i := range res {
 		res[i] = g.r.Intn(len(resources))
 	}
@@ -192,6 +200,7 @@ func (g *G) genRandom(id string, opt randOpt) *History {
 }
 
 type randOpt struct {
+	grammar                                             bool
 	class                                               string
 	maxRes, maxOps                                      int
 	vary, methods, nearMiss, statuses, faults, backends bool
@@ -304,9 +313,12 @@ func (g *G) classes() []genClass {
 		}
 		return h
 	}
+	chain := func(g *G, id string) *History { return g.genChain(id) }
 	switch g.prop {
-	case "C01", "C02", "C11", "C13", "C18":
-		return []genClass{{8, grid}, {1, status}, {1, vary}}
+	case "C01", "C11":
+		return []genClass{{6, grid}, {3, chain}, {1, status}, {1, vary}}
+	case "C02", "C13", "C18":
+		return []genClass{{8, grid}, {1, chain}, {1, status}, {1, vary}}
 	case "C06":
 		return []genClass{{4, grid}, {4, status}, {1, faults}, {1, inval}}
 	case "C10":
@@ -318,7 +330,7 @@ func (g *G) classes() []genClass {
 	case "C07":
 		return []genClass{{8, inval}, {2, urls}}
 	case "C08":
-		return []genClass{{5, vary}, {3, grid}, {2, inval}}
+		return []genClass{{4, vary}, {2, grid}, {3, chain}, {2, inval}}
 	case "C19":
 		return []genClass{{3, vary}, {1, inval}, {2, func(g *G, id string) *History { return g.genRepeat(id) }}}
 	case "C16":
@@ -328,7 +340,7 @@ func (g *G) classes() []genClass {
 	case "C20":
 		return []genClass{{8, func(g *G, id string) *History { return g.genSWR(id) }}, {2, grid}}
 	case "C09":
-		return []genClass{{4, urls}, {3, vary}, {3, backends}}
+		return []genClass{{4, urls}, {3, vary}, {3, backends}, {2, chain}}
 	}
 	return []genClass{{1, grid}}
 }
